@@ -116,11 +116,9 @@ func genCase(t *rapid.T) Case {
 		maxSteps = 5
 	}
 	nsteps := rapid.IntRange(1, maxSteps).Draw(t, "steps")
-	vetOdds := 149 // (five virtual hours of heart-beats cost seconds of real time)
-	if evid.Thorough() {
-		vetOdds = 29
-	}
-	if rapid.IntRange(0, vetOdds).Draw(t, "veteran") == 0 {
+	// (five virtual hours of heart-beats cost seconds of real time: drawn in the thorough tier only; every
+	// quick run contains one fixed case of this kind, regress/C18/veteran-restart.json)
+	if evid.Thorough() && rapid.IntRange(0, 29).Draw(t, "veteran") == 0 {
 		// one case in a hundred and fifty (thorough: thirty): the network has been up for hours (sequence numbers start at the boot
 		// time in milliseconds and grow with every advertisement) when a router restarts faster than the
 		// dead interval, with one link fewer than before: its neighbours must take up the new
@@ -253,11 +251,9 @@ func genCase(t *rapid.T) Case {
 			// table's size, while its peers decide by a fixed lag whether to ask for one (seeded C19-r9-2:
 			// a snapshot interval of half the table size, so that a peer more than 100 operations behind is
 			// handed a snapshot that is itself more than 100 operations old, again and again)
-			bigOdds := 11
-			if evid.Thorough() {
-				bigOdds = 5
-			}
-			if rapid.IntRange(0, bigOdds).Draw(t, "bigTable") == 0 {
+			// (hundreds of prefixes cost seconds: drawn in the thorough tier only; every quick run contains one
+			// fixed case of this kind, regress/C19/big-table-partition.json)
+			if evid.Thorough() && rapid.IntRange(0, 5).Draw(t, "bigTable") == 0 {
 				c.Steps = append(c.Steps, Step{Evs: []Ev{{K: "bulk", A: x, Cnt: rapid.SampledFrom([]int{230, 350}).Draw(t, "bulkCnt")}}})
 				cnt = rapid.SampledFrom([]int{104, 130, 150}).Draw(t, "bigBurstCnt")
 			}
